@@ -5,7 +5,7 @@
    SlowCycle.  The configuration of each trace (terminals with the FMMUs the group programmed
    into them, variables, number of devices) comes from the trace file.
 
-   Any event that is not send / recv / lost / update (the run loop crashed, or stalled) matches no
+   Any event that is not send / recv / lost / update / restart (the run loop crashed, or stalled) matches no
    action and is where the trace is rejected.
 
    Why(i) names, for the event at which trace i was rejected, the demands of SlowCycle that it
@@ -26,6 +26,7 @@ TNext == /\ l <= Len(Traces[tid].ev)
          /\ LET e == Ev IN
               \/ e.t = "send" /\ Send(e.dg)
               \/ e.t = "recv" /\ Receive(e.dg)
+              \/ e.t = "restart" /\ Restart(e.cfg)
               \/ e.t = "lost" /\ Lose(e.errs)
               \/ e.t = "update" /\ Update(Obs(e))
 TSpec == TInit /\ [][TNext]_tvars
@@ -35,18 +36,19 @@ Progress == TLCSet(tid, Max2(TLCGet(tid), l))
 ASSUME \A i \in 1 .. Len(Traces) : TLCSet(i, 0)
 
 -----------------------------------------------------------------------------
-LastOf(tr, m, typ) == LET S == {i \in 1 .. m : tr.ev[i].t = typ}
-                      IN IF S = {} THEN 0 ELSE CHOOSE i \in S : \A j \in S : j <= i
+LastOf(tr, lo, m, typ) == LET S == {i \in lo .. m : tr.ev[i].t = typ}
+                          IN IF S = {} THEN 0 ELSE CHOOSE i \in S : \A j \in S : j <= i
 Why(i) ==
     LET tr == Traces[i]
         m  == TLCGet(i) - 1                       \* events accepted
     IN IF m >= Len(tr.ev) THEN {}
        ELSE LET e  == tr.ev[m + 1]
-                c  == tr.cfg
-                kk == Cardinality({j \in 1 .. m : tr.ev[j].t = "update"})
-                pu == LastOf(tr, m, "update")
-                pr == LastOf(tr, m, "recv")
-                want == IF m = 0 THEN "send"
+                r0 == LastOf(tr, 1, m, "restart")                 \* the current run starts after r0
+                c  == IF r0 = 0 THEN tr.cfg ELSE tr.ev[r0].cfg
+                kk == Cardinality({j \in r0 + 1 .. m : tr.ev[j].t = "update"})
+                pu == LastOf(tr, r0 + 1, m, "update")
+                pr == LastOf(tr, r0 + 1, m, "recv")
+                want == IF m = r0 THEN "send"
                         ELSE IF tr.ev[m].t = "send" THEN "recv"
                         ELSE IF tr.ev[m].t = "recv" THEN "update" ELSE "send"
             IN IF e.t = "lost" /\ want = "recv"
